@@ -36,6 +36,21 @@ func split(run *ev.Run, caseID string, w *mon.SessWorld, probs []string) {
 // finalAccount checks, per stream, the multiset of results received over the whole history.
 func finalAccount(run *ev.Run, w *mon.SessWorld) []string {
 	var probs []string
+	// the Get RPC must report exactly the fold of what was acknowledged (C01 at the server level)
+	if resps, err, wd := drv.Get(w.Srv, &spb.GetRequest{NetworkInstance: &spb.GetRequest_All{All: &spb.Empty{}}, Aft: spb.AFTType_ALL}, 0); wd == nil {
+		if err != nil {
+			probs = append(probs, fmt.Sprintf("get-error-at-quiescence|%v", err))
+		} else {
+			got, dups := canon.FromGet(resps)
+			for _, d := range dups {
+				probs = append(probs, "get-duplicate-entry|"+d)
+			}
+			for _, d := range canon.Diff(w.Contents(), got) {
+				probs = append(probs, fmt.Sprintf("get-vs-acknowledged:%s|Get after the history: %s", strings.Fields(d)[0], d))
+			}
+			run.Count("get_rpc_comparisons_at_quiescence", 1)
+		}
+	}
 	for _, s := range w.Sess {
 		for id := range s.Sent {
 			sts := s.Terminal[id]
@@ -224,7 +239,6 @@ func TestCheck(t *testing.T) {
 			run.Sample(map[string]any{"case": caseID, "script": w.Trace})
 		}
 	})
-	_ = canon.V4
 	run.Assume("a held operation whose session lost the primary role or ended may stay unanswered and without effect, or be answered later on its own still-open stream; anything else (a result on another stream, an effect without an answer) is a violation")
 	run.Finish("(a) single-session histories of 30-230 operations from the C01 generator through the server (RIB- and FIB-acknowledging sessions, batches of 1-200 operations per request, empty and unknown network-instance names, forward references allowed / disallowed); (b) hand-over scripts: A leaves operations held (group behind a missing next-hop, entries behind the group), B announces an equal or higher id while A is connected / already gone / leaves afterwards / re-announces, B installs the missing dependency using operation ids that collide with A's. Every response is attributed to its operation (one ModifyResponse per operation, barrier-delimited) and judged by the RIB model; per stream the multiset of results over the whole history is accounted at the end. Distinct = by script", 200, false)
 }
